@@ -70,6 +70,7 @@ def main():
 
     gc.disable()
     t0 = time.monotonic()
+    os.environ['HOLSIM_TIER'] = args.tier
     mod.warmup()
     gc.collect()
     gc.freeze()  # children never scan (and so never copy-on-write) the warm heap
